@@ -208,6 +208,8 @@ def rule_implicit_wiring(rep: Report, repo: Repo):
     # what the block grid of the series is: the `shape` every series of the computation is constructed with
     shp_kw = {norm(_res(k_.value, _ea(c_, sc))) for c_ in own_nodes(sc) if isinstance(c_, ast.Call) and call_name(c_) in ("BlockSeries", "dict")
               for k_ in c_.keywords if k_.arg == "shape"}
+    shp_kw |= {norm(_res(v_, _ea(d_, sc))) for d_ in own_nodes(sc) if isinstance(d_, ast.Dict)
+               for k_, v_ in zip(d_.keys, d_.values) if isinstance(k_, ast.Constant) and k_.value == "shape"}
     if len(shp_kw) != 1:
         raise AnalysisError(RULE, f"series_computation: the common shape of the series is not one expression ({sorted(shp_kw)})")
     SH = shp_kw.pop()
